@@ -739,6 +739,257 @@ func runC09(c *Ctx) {
 	c09MatchLeg(c)
 	c09TargetedLeg(c)
 	c09AloneLeg(c)
+	c09NamesLeg(c)
 }
 
 var c09Pos = &ast.Position{Src: &ast.Source{Name: "sel.graphql", Input: "\n"}, Line: 1, Column: 1}
+
+
+// ---------- the naming rule (Model/TypeNames.lean) against the generated type names ----------
+
+// c09NamesLeg: programs without @genqlient comments; for every composite-typed field of every operation the Go type
+// of the generated struct field must be the name the model of names.go computes for its path.
+func c09NamesLeg(c *Ctx) {
+	n := c.N(40, 1500)
+	for i := 0; i < n; i++ {
+		o := safeOpts
+		o.NoDirectives = true
+		o.Adversarial = i%3 == 0
+		p := gen.GenerateSeed(c.Seed*86028121+uint64(i), o)
+		c09NamesOne(c, progFromGen(p), c.Seed*86028121+uint64(i), fmt.Sprintf("names|%d", i))
+	}
+	// directed stream: type names, field names, aliases and operation names put together from a few words, so that
+	// "the name so far ends with the type name" holds across part boundaries in every way
+	m := c.N(60, 2500)
+	for i := 0; i < m; i++ {
+		r := proto.NewRng(c.Seed, "c09/names-words", uint64(i))
+		c09NamesOne(c, c09WordsProgram(r), uint64(i), fmt.Sprintf("names-words|%d", i))
+	}
+}
+
+// c09WordsProgram: a small schema and operations whose every name is a concatenation of one to three words of
+// a tiny vocabulary (types UpperCamel, fields and aliases lowerCamel).
+func c09WordsProgram(r *proto.Rng) *Program {
+	words := []string{"User", "Current", "Item", "A", "B", "Get"}
+	name := func() string {
+		k := 1 + r.Intn(3)
+		s := ""
+		for j := 0; j < k; j++ {
+			s += words[r.Intn(len(words))]
+		}
+		return s
+	}
+	lower := func(s string) string { return strings.ToLower(s[:1]) + s[1:] }
+	nt := 3 + r.Intn(4)
+	var types []string
+	seen := map[string]bool{"Query": true}
+	for len(types) < nt {
+		t := name()
+		if !seen[t] {
+			seen[t] = true
+			types = append(types, t)
+		}
+	}
+	type fld struct{ name, typ string }
+	fields := map[string][]fld{}
+	var sb strings.Builder
+	decl := func(tn string) {
+		fs := map[string]bool{"id": true}
+		nf := 1 + r.Intn(3)
+		fmt.Fprintf(&sb, "type %s {\n  id: ID!\n", tn)
+		for j := 0; j < nf; j++ {
+			f := lower(name())
+			if fs[f] {
+				continue
+			}
+			fs[f] = true
+			ft := types[r.Intn(len(types))]
+			fields[tn] = append(fields[tn], fld{f, ft})
+			wrap := []string{"%s", "%s!", "[%s]", "[%s!]!"}[r.Intn(4)]
+			fmt.Fprintf(&sb, "  %s: "+wrap+"\n", f, ft)
+		}
+		sb.WriteString("}\n")
+	}
+	decl("Query")
+	for _, t := range types {
+		decl(t)
+	}
+	var ops strings.Builder
+	var sel func(tn string, depth int, ind string)
+	sel = func(tn string, depth int, ind string) {
+		ops.WriteString(ind + "id\n")
+		if depth <= 0 {
+			return
+		}
+		used := map[string]bool{"id": true}
+		for _, f := range fields[tn] {
+			if r.Intn(4) == 0 {
+				continue
+			}
+			key := f.name
+			line := f.name
+			if r.Intn(2) == 0 {
+				a := lower(name())
+				key, line = a, a+": "+f.name
+			}
+			if used[key] {
+				continue
+			}
+			used[key] = true
+			ops.WriteString(ind + line + " {\n")
+			sel(f.typ, depth-1, ind+"  ")
+			ops.WriteString(ind + "}\n")
+		}
+	}
+	nOps := 1 + r.Intn(3)
+	opSeen := map[string]bool{}
+	for j := 0; j < nOps; j++ {
+		on := name()
+		if opSeen[on] || len(fields["Query"]) == 0 {
+			continue
+		}
+		opSeen[on] = true
+		fmt.Fprintf(&ops, "query %s {\n", on)
+		used := map[string]bool{}
+		for _, f := range fields["Query"] {
+			key, line := f.name, f.name
+			if r.Intn(2) == 0 {
+				a := lower(name())
+				key, line = a, a+": "+f.name
+			}
+			if used[key] {
+				continue
+			}
+			used[key] = true
+			ops.WriteString("  " + line + " {\n")
+			sel(f.typ, 1+r.Intn(3), "    ")
+			ops.WriteString("  }\n")
+		}
+		ops.WriteString("}\n")
+	}
+	casing := []string{"", "", "raw", "auto_camel_case"}[r.Intn(4)]
+	return &Program{Schema: map[string]string{"schema.graphql": sb.String()}, Ops: map[string]string{"ops.graphql": ops.String()},
+		Cfg: ProgCfg{Package: "gen", CasingDefault: casing}}
+}
+
+func c09NamesOne(c *Ctx, pr *Program, seed uint64, tag string) {
+	{
+		out := runGenerate(c.Work, &Program{Schema: pr.Schema, Ops: pr.Ops, Cfg: pr.Cfg}, false)
+		c.Res.Eval()
+		if out.Err != nil || out.Panic != nil || out.TimedOut {
+			c.Res.Count("names:skipped-not-generated")
+			return
+		}
+		var texts []string
+		for _, k := range sortedKeys(pr.Schema) {
+			texts = append(texts, pr.Schema[k])
+		}
+		schema, err := loadSchema(texts)
+		if err != nil {
+			return
+		}
+		var ops strings.Builder
+		for _, k := range sortedKeys(pr.Ops) {
+			ops.WriteString(pr.Ops[k] + "\n")
+		}
+		doc, err := parseAndValidate(schema, ops.String())
+		if err != nil {
+			return
+		}
+		decls := parseGoDecls(out.Files["generated.go"])
+		cs := c09Case{Leg: "names", Seed: seed, Schema: pr.Schema, Ops: pr.Ops, Cfg: pr.Cfg}
+		bad := false
+		fieldGoType := func(structName, key string) (string, bool) {
+			for _, f := range decls.structs[structName] {
+				j := f.JSON
+				if j == "-" {
+					j = decls.premarshalGo[structName][f.Name]
+				}
+				if !f.Embedded && j == key {
+					t := f.Type
+					for strings.HasPrefix(t, "[]") || strings.HasPrefix(t, "*") || (strings.HasPrefix(t, "sup.Option[") && strings.HasSuffix(t, "]")) {
+						if strings.HasPrefix(t, "sup.Option[") {
+							t = t[len("sup.Option[") : len(t)-1]
+							continue
+						}
+						t = strings.TrimPrefix(strings.TrimPrefix(t, "[]"), "*")
+					}
+					return t, true
+				}
+			}
+			return "", false
+		}
+		var walk func(root string, steps [][]any, ss ast.SelectionSet, structs []string, depth int)
+		walk = func(root string, steps [][]any, ss ast.SelectionSet, structs []string, depth int) {
+			if bad || depth > 12 {
+				return
+			}
+			for _, sel := range ss {
+				switch x := sel.(type) {
+				case *ast.InlineFragment:
+					walk(root, steps, x.SelectionSet, structs, depth+1) // inline fragments do not contribute to the name
+				case *ast.Field:
+					if x.Definition == nil || x.ObjectDefinition == nil {
+						continue
+					}
+					td := schema.Types[x.Definition.Type.Name()]
+					if td == nil || (td.Kind != ast.Object && td.Kind != ast.Interface && td.Kind != ast.Union) {
+						continue
+					}
+					st := append(append([][]any{}, steps...), []any{x.ObjectDefinition.Name, x.Alias})
+					var stepsAny []any
+					for _, e := range st {
+						stepsAny = append(stepsAny, e)
+					}
+					m := c.Model(map[string]any{"op": "names.typeName", "root": root, "steps": stepsAny, "typeName": td.Name, "casing": pr.Cfg.CasingDefault})
+					if _, isErr := m["error"]; isErr {
+						c.Res.Count("names:skipped-non-ascii")
+						continue
+					}
+					want, _ := m["name"].(string)
+					// the field lives in whichever of the candidate structs (the parent, or the parent's implementations)
+					// declares the key
+					found := false
+					var next []string
+					for _, sn := range structs {
+						got, ok := fieldGoType(sn, x.Alias)
+						if !ok {
+							continue
+						}
+						found = true
+						c.Res.Count("names:compared")
+						if got != want {
+							bad = true
+							c.Res.Add(proto.Finding{Kind: "mismatch", Class: "type-name-model", What: fmt.Sprintf("field %s.%s (alias %s) of type %s: generated Go type %s, the model of names.go gives %s (root %s, steps %v)", x.ObjectDefinition.Name, x.Name, x.Alias, td.Name, got, want, root, st), Case: cs})
+							return
+						}
+					}
+					if !found {
+						continue
+					}
+					if td.Kind == ast.Object {
+						next = []string{want}
+					} else {
+						for _, impl := range decls.ifaceImpls[want] {
+							next = append(next, impl)
+						}
+						sortStrings(next)
+					}
+					walk(root, st, x.SelectionSet, next, depth+1)
+				}
+			}
+		}
+		for _, op := range doc.Operations {
+			respType := op.Name + "Response"
+			if _, ok := decls.structs[respType]; !ok {
+				rt := strings.ToUpper(op.Name[:1]) + op.Name[1:] + "Response"
+				if _, ok2 := decls.structs[rt]; !ok2 {
+					continue
+				}
+				respType = rt
+			}
+			walk(op.Name, nil, op.SelectionSet, []string{respType}, 0)
+		}
+		c.Res.NonTrivial(tag)
+	}
+}
